@@ -7,6 +7,7 @@ import (
 	"path/filepath"
 	"sync"
 	"syscall"
+	"time"
 
 	"github.com/jimsnab/go-lane"
 	redisemu "github.com/jimsnab/go-redisemu"
@@ -130,5 +131,19 @@ func (e *Emu) CloseConns() {
 // Stop closes client sockets, then the emulator.
 func (e *Emu) Stop() {
 	e.CloseConns()
-	e.E.Close()
+	done := make(chan struct{})
+	go func() {
+		e.E.Close()
+		close(done)
+	}()
+	select {
+	case <-done:
+	case <-time.After(StopBound):
+		// a termination that never returns would wedge the whole check until its time budget is gone; the
+		// process ends here instead, and the case in the journal becomes the replay
+		panic(fmt.Sprintf("kit: the emulator on %s did not terminate within %v after its clients had closed their connections", e.Addr, StopBound))
+	}
 }
+
+// StopBound: how long Close of an emulator whose clients are gone may take (it normally takes milliseconds).
+var StopBound = 60 * time.Second
